@@ -13,7 +13,10 @@ CREATION = {"open-create", "os.mkdir", "os.link", "os.symlink", "os.rename",
             "os.remove", "os.rmdir", "shutil.move", "shutil.rmtree",
             "tempfile.mkstemp", "tempfile.mkdtemp"}
 
-VERSIONS = {"v1": "TorrentFile", "v2": "Assembler2", "hy": "Assembler3"}
+VERSIONS = {"v1": "TorrentFile", "v2": "Assembler2", "hy": "Assembler3",
+            # a conformant metafile of another encoder: string url-list,
+            # two tracker tiers, unknown keys
+            "foreign": None}
 
 
 def build_sandbox(seed, version, pstate):
@@ -35,8 +38,18 @@ def build_sandbox(seed, version, pstate):
     os.mkdir(meta)
     mpath = os.path.join(meta, "m.torrent")
     tf.reset_process_state()
-    tf.create(VERSIONS[version], root, mpath, P0,
-              announce=["http://t/a"], url_list=["http://w/"])
+    if version == "foreign":
+        m = model.ref_hybrid(NAME, dict(files), P0, 16384)
+        m[b"url-list"] = b"http://w/single-string"
+        m[b"announce"] = b"http://t/b"
+        m[b"announce-list"] = [[b"http://t/a"], [b"http://t/b"]]
+        m[b"comment"] = b"top-level comment"
+        m[b"info"][b"x-unknown"] = [b"\xff", 1]
+        with open(mpath, "wb") as f:
+            f.write(bencode.encode(m))
+    else:
+        tf.create(VERSIONS[version], root, mpath, P0,
+                  announce=["http://t/a"], url_list=["http://w/"])
     if pstate == "damaged":
         p = os.path.join(root, "d", "b")
         with open(p, "r+b") as f:
@@ -77,6 +90,10 @@ class ReadOnlyCheck:
             "judged on the before/after difference only",
             "create also on a single-file payload whose own name ends in "
             ".torrent with a derived output name in the payload's directory",
+            "a fourth metafile kind: a conformant hybrid of another encoder "
+            "(string url-list, two tracker tiers, unknown keys)",
+            "rename also on a decodable but non-canonical metafile (bytes "
+            "must stay identical)",
             "rename: target name free / taken (by a file, by a directory, "
             "with the current name differing only in case, with a relative "
             "argument) / already correct",
@@ -92,8 +109,9 @@ class ReadOnlyCheck:
             for ps in ("intact", "damaged", "missing"):
                 gs.append({"kind": "readonly", "version": v, "pstate": ps,
                            "seed": seed})
-            gs.append({"kind": "create", "version": v, "seed": seed,
-                       "tier": tier})
+            if v != "foreign":
+                gs.append({"kind": "create", "version": v, "seed": seed,
+                           "tier": tier})
             gs.append({"kind": "rename", "version": v, "seed": seed})
         return gs
 
@@ -337,7 +355,8 @@ class ReadOnlyCheck:
 
     def run_rename(self, g, res):
         seed = g["seed"]
-        for variant in ("free", "taken", "already-correct", "taken-by-dir",
+        for variant in ("free", "free-noncanonical", "taken",
+                        "already-correct", "taken-by-dir",
                         "taken-case-variant", "taken-relative"):
             sb, root, mpath = build_sandbox(seed, g["version"], "intact")
             cwd = os.path.join(sb, "cwd")
@@ -358,6 +377,14 @@ class ReadOnlyCheck:
             elif variant == "already-correct":
                 os.rename(mpath, target)
                 src = target
+            if variant == "free-noncanonical":
+                # decodable, but not what a re-encoding would write: a
+                # leading-zero integer and a line feed after the dictionary
+                with open(src, "rb") as f:
+                    body = f.read()
+                body = body[:-1] + b"5:zzpad" + b"i007e" + b"e\n"
+                with open(src, "wb") as f:
+                    f.write(body)
             with open(src, "rb") as f:
                 raw = f.read()
             before = world.snapshot(sb)
@@ -377,7 +404,7 @@ class ReadOnlyCheck:
             res.validated += 1
             prob = None
             srel, trel = os.path.relpath(src, sb), os.path.relpath(target, sb)
-            if variant == "free":
+            if variant in ("free", "free-noncanonical"):
                 if err:
                     prob = "rename-raised:" + err
                 elif sorted(changed) != sorted([srel, trel]):
